@@ -1,0 +1,219 @@
+//! Verification hooks (cargo feature `verif`).
+//! Everything in here is observation-only and compiled out by default.
+
+use crate::object::Object;
+use std::cell::RefCell;
+use std::collections::HashMap;
+
+pub use crate::gc::GC;
+
+thread_local! {
+    static OUTPUT: RefCell<String> = RefCell::new(String::new());
+    static BUDGET: RefCell<Option<u64>> = RefCell::new(None);
+    static STEPS: RefCell<u64> = RefCell::new(0);
+    static HEAP: RefCell<ShadowHeap> = RefCell::new(ShadowHeap::default());
+    static GC_LOG: RefCell<Vec<GcRun>> = RefCell::new(Vec::new());
+    static FLOAT_LOG: RefCell<Vec<FloatOracle>> = RefCell::new(Vec::new());
+}
+
+/// One call of an operation the formal model treats as an oracle
+#[derive(Clone, Debug)]
+pub enum FloatOracle {
+    Show(u64, String),
+    Parse(String, Option<u64>),
+    Rem(u64, u64, u64),
+}
+
+pub fn log_float(entry: FloatOracle) {
+    FLOAT_LOG.with(|l| l.borrow_mut().push(entry));
+}
+
+pub fn take_float_log() -> Vec<FloatOracle> {
+    FLOAT_LOG.with(|l| std::mem::take(&mut *l.borrow_mut()))
+}
+
+/// Text written by print() on this thread since the last call of take_output()
+pub fn capture(text: &str) {
+    OUTPUT.with(|o| o.borrow_mut().push_str(text));
+}
+
+pub fn take_output() -> String {
+    OUTPUT.with(|o| std::mem::take(&mut *o.borrow_mut()))
+}
+
+/// Sets the number of instructions the VM may still execute on this thread (None = unlimited)
+pub fn set_budget(budget: Option<u64>) {
+    BUDGET.with(|b| *b.borrow_mut() = budget);
+    STEPS.with(|s| *s.borrow_mut() = 0);
+}
+
+/// Number of instructions dispatched since the last set_budget()
+pub fn steps() -> u64 {
+    STEPS.with(|s| *s.borrow())
+}
+
+/// Called once per dispatched instruction; true when the budget is exhausted
+pub fn tick() -> bool {
+    let exhausted = BUDGET.with(|b| {
+        let mut b = b.borrow_mut();
+        match b.as_mut() {
+            Some(0) => true,
+            Some(n) => {
+                *n -= 1;
+                false
+            }
+            None => false,
+        }
+    });
+    if !exhausted {
+        STEPS.with(|s| *s.borrow_mut() += 1);
+    }
+    exhausted
+}
+
+/// An out-of-contract access at one of the VM's unchecked fast paths.
+/// Stops the run (by unwinding) instead of executing undefined behaviour.
+pub fn probe_fail(site: &str) -> ! {
+    panic!("verif-probe: {site}");
+}
+
+#[derive(Default)]
+pub struct ShadowHeap {
+    /// address -> alive?
+    boxes: HashMap<usize, bool>,
+    pub allocated: u64,
+    pub freed: u64,
+}
+
+pub fn heap_register(addr: usize) {
+    HEAP.with(|h| {
+        let mut h = h.borrow_mut();
+        if addr % 8 != 0 || addr == 0 {
+            drop(h);
+            probe_fail("misaligned-allocation");
+        }
+        h.boxes.insert(addr, true);
+        h.allocated += 1;
+    });
+}
+
+/// Marks a box as released. Returns false (after reporting) on a double free.
+pub fn heap_release(addr: usize) {
+    let ok = HEAP.with(|h| {
+        let mut h = h.borrow_mut();
+        match h.boxes.get_mut(&addr) {
+            Some(alive) if *alive => {
+                *alive = false;
+                h.freed += 1;
+                true
+            }
+            _ => false,
+        }
+    });
+    if !ok {
+        probe_fail("double-free");
+    }
+}
+
+pub fn heap_check_live(addr: usize) {
+    let ok = HEAP.with(|h| h.borrow().boxes.get(&addr).copied().unwrap_or(false));
+    if !ok {
+        probe_fail("use-after-free");
+    }
+}
+
+/// (allocated, freed, addresses still alive)
+pub fn heap_stats() -> (u64, u64, Vec<usize>) {
+    HEAP.with(|h| {
+        let h = h.borrow();
+        let mut live: Vec<usize> = h
+            .boxes
+            .iter()
+            .filter(|(_, alive)| **alive)
+            .map(|(a, _)| *a)
+            .collect();
+        live.sort_unstable();
+        (h.allocated, h.freed, live)
+    })
+}
+
+/// Forgets the ledger. Quarantined (released) boxes are never handed back to the allocator,
+/// so an address is never recycled while the hooks are on.
+pub fn heap_reset() {
+    HEAP.with(|h| {
+        *h.borrow_mut() = ShadowHeap::default();
+    });
+}
+
+/// What one GC::run saw and left behind
+#[derive(Clone, Debug)]
+pub struct GcRun {
+    pub roots: Vec<usize>,
+    pub before: Vec<usize>,
+    pub survivors: Vec<usize>,
+    /// survivors == managed objects reachable from the roots (computed on the live graph)
+    pub exact: bool,
+}
+
+pub fn gc_run_done(roots: &[&[Object]], before: &[usize], survivors: &[Object]) {
+    let mut reach: Vec<usize> = Vec::new();
+    fn walk(o: Object, reach: &mut Vec<usize>) {
+        if !o.is_heap_allocated() {
+            return;
+        }
+        let raw = o.verif_raw();
+        if reach.contains(&raw) {
+            return;
+        }
+        reach.push(raw);
+        if o.tag() == crate::object::Type::Array {
+            for v in o.as_vec().iter() {
+                walk(*v, reach);
+            }
+        }
+    }
+    let mut flat = Vec::new();
+    for r in roots {
+        for o in r.iter() {
+            if o.is_heap_allocated() {
+                flat.push(o.verif_raw());
+            }
+            walk(*o, &mut reach);
+        }
+    }
+    let mut expect: Vec<usize> = before.iter().copied().filter(|a| reach.contains(a)).collect();
+    expect.sort_unstable();
+    let mut surv: Vec<usize> = survivors.iter().map(|o| o.verif_raw()).collect();
+    let survivors_in_order = surv.clone();
+    surv.sort_unstable();
+    GC_LOG.with(|l| {
+        l.borrow_mut().push(GcRun {
+            roots: flat,
+            before: before.to_vec(),
+            survivors: survivors_in_order,
+            exact: surv == expect,
+        })
+    });
+}
+
+pub fn take_gc_log() -> Vec<GcRun> {
+    GC_LOG.with(|l| std::mem::take(&mut *l.borrow_mut()))
+}
+
+/// Kind and end offset (in bytes) of every token of the input
+pub fn tokens(input: &str) -> Vec<(String, usize)> {
+    crate::lexer::verif_tokens(input)
+}
+
+/// (byte, name, operand widths) of every opcode
+pub fn opcode_table() -> Vec<(u8, String, Vec<usize>)> {
+    crate::compiler::verif_opcode_table()
+}
+
+/// (byte, name) of every builtin, resolved through builtins::resolve
+pub fn builtin_table() -> Vec<(u8, String)> {
+    ["print", "type", "bool", "float", "int", "string", "lengte"]
+        .iter()
+        .filter_map(|n| crate::builtins::resolve(n).map(|b| (b as u8, n.to_string())))
+        .collect()
+}
